@@ -59,6 +59,12 @@ def run_loop(cfg, chooser=None):
     L = launch()
     p = {"tf": cfg["tf"], "initialize": cfg["initialize"], "estimators": ["mrp"], "x0": np.array(cfg["x0"], dtype=float),
          "params": {"sim/mag_incl": cfg["incl"], "sim/mag_decl": cfg["decl"], "mrp/mag_decl": cfg["decl"], "sim/enable_noise": False}}
+    if cfg.get("x0_form") == "default":
+        del p["x0"]  # the launcher's own default initial state
+    elif cfg.get("x0_form") == "int_list":
+        p["x0"] = [int(v) for v in cfg["x0"]]  # integer-valued data, as the launcher's default is written
+    elif cfg.get("x0_form") == "int_array":
+        p["x0"] = np.array([int(v) for v in cfg["x0"]])
     p["params"].update(RATES[cfg["rates"]])
     old = L.uros.Core
     sched.ControlledCore.chooser = chooser
@@ -177,7 +183,11 @@ def lattice(tier):
                     need.discard((i, best[i], j, best[j]))
         full = chosen
     tf = 30 if tier == "thorough" else 20
-    return [dict(x0=atts[a] + biases[b], initialize=inits[i], decl=mags[mg][0], incl=mags[mg][1], rates=rates[r], tf=tf) for a, b, i, mg, r in full]
+    out = [dict(x0=atts[a] + biases[b], initialize=inits[i], decl=mags[mg][0], incl=mags[mg][1], rates=rates[r], tf=tf) for a, b, i, mg, r in full]
+    # the initial state left to the launcher's default, and given as integer-valued data
+    for form, x0, init in (("default", [0.0] * 6, True), ("int_list", [0.0] * 6, False), ("int_array", [0.0] * 6, True)):
+        out.append(dict(x0=x0, initialize=init, decl=0.2, incl=1.0, rates="default", tf=tf, x0_form=form))
+    return out
 
 
 def explore_loop(case):
